@@ -56,6 +56,15 @@ type expectation struct {
 
 func (w *world) expect(q QuerySpec) expectation {
 	res := w.u.NS.Resolve(q.Name, q.Type)
+	// Status per hop with the usable-DS rule (dsmix.go): a DS RRset with no
+	// usable record is an insecure delegation, a mixed one is a secure one.
+	res.Status = zm.Secure
+	for i := range res.Steps {
+		res.Steps[i].Status = w.stepStatus(res.Steps[i].Path)
+		if res.Steps[i].Status > res.Status {
+			res.Status = res.Steps[i].Status
+		}
+	}
 	e := expectation{res: res}
 	e.secure = res.Status == zm.Secure && !w.spec.NoAnchor
 	e.mustFail = res.Status == zm.Bogus || res.Lame || res.Loop || w.spec.NoAnchor
@@ -64,10 +73,8 @@ func (w *world) expect(q QuerySpec) expectation {
 			continue
 		}
 		z, p := w.u.NS.Zone(st.Path[len(st.Path)-1]), w.u.NS.Zone(st.Path[len(st.Path)-2])
-		if z != nil && p != nil && z.Signed() {
-			if d := p.Delegation(z.Apex()); d != nil && d.Secure() {
-				e.islandChild = true
-			}
+		if z != nil && p != nil && z.Signed() && delegSecure(p, z.Apex()) {
+			e.islandChild = true
 		}
 	}
 	return e
